@@ -349,6 +349,83 @@ func runC03(c *Ctx) {
 		}
 		c.Stat("stale_buffer_runs", 1)
 	}
+	// a sustained flood of watch frames arriving faster than the controller
+	// applies them (slow filter): list results keep being consumed (relisting
+	// goes on) and Close() is served — the watch case never monopolises the loop
+	for i := 0; i < 2; i++ {
+		var problems []string
+		what := "a sustained flood of watch frames against a slow controller (8 s, one frame per 10 ms, 20 ms per filter call)"
+		c.Now(what)
+		dl := sched.Bubble(c.T, func() {
+			srv := fakeapi.New()
+			srv.Set(1, 1, labSets[1], 1)
+			var slow atomic.Bool
+			ct := newCtlWith(srv, c.Seed+70+int64(i), i, 2*time.Second, filter.FN(func(metav1.Object) bool {
+				if slow.Load() {
+					time.Sleep(20 * time.Millisecond)
+				}
+				return true
+			}))
+			closed := false
+			defer func() {
+				slow.Store(false)
+				ct.pert.SetLevel(0)
+				if !closed {
+					ct.c.Close()
+				}
+				sched.Settle()
+			}()
+			ct.pert.Barrier()
+			slow.Store(true)
+			stop := make(chan struct{})
+			ended := make(chan struct{})
+			go func() {
+				defer close(ended)
+				for k := 0; ; k++ {
+					select {
+					case <-stop:
+						return
+					default:
+					}
+					srv.Set(1+k%2, 1+k%3, labSets[k%3], 1)
+					time.Sleep(10 * time.Millisecond)
+				}
+			}()
+			l0, _ := srv.Calls()
+			time.Sleep(8 * time.Second)
+			l1, _ := srv.Calls()
+			if got := len(l1) - len(l0); got < 2 {
+				problems = append(problems, fmt.Sprintf("%d list calls were issued during 8 s of flood with a refresh period of 2 s: list results are no longer consumed", got))
+			}
+			// Close in the middle of the flood
+			done := make(chan struct{})
+			go func() { ct.c.Close(); close(done) }()
+			time.Sleep(2 * time.Second)
+			closed = isClosed(done)
+			if !closed {
+				problems = append(problems, "Close() has not returned 2 s after it was called in the middle of the flood")
+			}
+			close(stop)
+			<-ended
+			slow.Store(false)
+			if !closed {
+				time.Sleep(30 * time.Second)
+				sched.Settle()
+				closed = isClosed(done)
+			}
+		})
+		runs++
+		c.Rep.Evaluations++
+		replay := map[string]interface{}{"scenario": what, "attempt": i}
+		if dl != "" {
+			replay["deadlock"] = dl
+			c.Violation("", "hang (bubble deadlock): "+what, replay)
+		}
+		for _, p := range problems {
+			c.Violation("", p+" ["+what+"]", replay)
+		}
+		c.DistinctCase(fmt.Sprint("flood", i))
+	}
 	// two builders configured side by side before either controller is created:
 	// each controller lists and watches ITS server at ITS refresh period
 	for i := 0; i < 2; i++ {
@@ -415,7 +492,7 @@ func runC03(c *Ctx) {
 		}
 		c.DistinctCase(fmt.Sprint("two-builders", i))
 	}
-	c.Rep.Rule = "whole controller against the fake API server in a synctest bubble (virtual time): seeded random server histories over 2 namespaces x 3 names in three phases (creates, label changes, deletes, objects entering graceful deletion: a deletionTimestamp, still listed); refresh periods {2s,7s}; list latency {0, 1/2, 3/2} period; controller filters {none, Labels, Not(NSName)}; watch behaviour {healthy, never connects, connect hangs until cancelled, closes after every 2 events, drops events, duplicates events, status/bookmark frames, mixed, replays old history (also on a quiet server, where the next list carries an unchanged resourceVersion), bursts of 220-320 changes against a slow controller (the session's and the watcher's buffers overflow and events are lost), lists that carry no collection resourceVersion}; 4 levels of logger-driven schedule perturbation. With the watch out of action: after every completed list cache = that list's accepted objects. After each phase: once a list that started after the server quiesced completes, cache = server's accepted objects, subscriber mirror = cache with well-formed strictly-newer events, no event before Ready, Close returns. Plus a targeted scenario: a watch event that the next list contradicts sits in the watcher's buffer while the controller is busy (slow filter) and the stream stalls; after that list cache = list. Plus two builders configured side by side before either controller is created: each controller follows its own server at its own refresh period. The converged cache is compared with the extracted model's relist_outcome. Non-trivial = run with >= 3 lists."
+	c.Rep.Rule = "whole controller against the fake API server in a synctest bubble (virtual time): seeded random server histories over 2 namespaces x 3 names in three phases (creates, label changes, deletes, objects entering graceful deletion: a deletionTimestamp, still listed); refresh periods {2s,7s}; list latency {0, 1/2, 3/2} period; controller filters {none, Labels, Not(NSName)}; watch behaviour {healthy, never connects, connect hangs until cancelled, closes after every 2 events, drops events, duplicates events, status/bookmark frames, mixed, replays old history (also on a quiet server, where the next list carries an unchanged resourceVersion), bursts of 220-320 changes against a slow controller (the session's and the watcher's buffers overflow and events are lost), lists that carry no collection resourceVersion}; 4 levels of logger-driven schedule perturbation. With the watch out of action: after every completed list cache = that list's accepted objects. After each phase: once a list that started after the server quiesced completes, cache = server's accepted objects, subscriber mirror = cache with well-formed strictly-newer events, no event before Ready, Close returns. Plus a targeted scenario: a watch event that the next list contradicts sits in the watcher's buffer while the controller is busy (slow filter) and the stream stalls; after that list cache = list. Plus a sustained flood of watch frames against a slow controller (8 s): relisting goes on and Close() is served. Plus two builders configured side by side before either controller is created: each controller follows its own server at its own refresh period. The converged cache is compared with the extracted model's relist_outcome. Non-trivial = run with >= 3 lists."
 	c.Rep.Stats["runs"] = runs
 }
 
